@@ -275,8 +275,8 @@ example : ∃ s',
                   mk .Assignment (tc 24) [.str "=", ParenExpr.idNode 24 "a", ParenExpr.idNode 26 "i"]]]]]]) s' ∧
         (∃ env, SeesT env s' []) := by
   let dA : Dcl := { specs := [("INT", "int")], first := { d := .name "a", init := none }, more := [] }
-  let dB : Dcl := { specs := [("INT", "int")], first := { d := .name "b", init := some (.id "a") }, more := [] }
-  let dI : Dcl := { specs := [("INT", "int")], first := { d := .name "i", init := some (.const "INT_CONST_DEC" "0" "int") }, more := [] }
+  let dB : Dcl := { specs := [("INT", "int")], first := { d := .name "b", init := some (.expr (.id "a")) }, more := [] }
+  let dI : Dcl := { specs := [("INT", "int")], first := { d := .name "i", init := some (.expr (.const "INT_CONST_DEC" "0" "int")) }, more := [] }
   let l : SL := .consD dA (.cons (.block (.consD dB (.cons
     (.forD dI (some (.bin "LT" "<" (.id "i") (.id "b"))) (some (.post "PLUSPLUS" "++" (.id "i")))
       (.expr (.assign "EQUALS" "=" (.id "a") (.id "i")))) .nil))) .nil)
@@ -284,8 +284,8 @@ example : ∃ s',
   have hsv : SpecVals [("INT", "int")] := by
     intro t ht; simp only [List.mem_singleton] at ht; subst ht; exact ⟨by decide, by decide⟩
   have hA : WFDcl dA := ⟨hsp, hsv, rfl, ⟨.name _, by intro e h; cases h⟩, by intro it h; cases h⟩
-  have hB : WFDcl dB := ⟨hsp, hsv, rfl, ⟨.name _, by intro e h; cases h; exact .id _ _⟩, by intro it h; cases h⟩
-  have hI : WFDcl dI := ⟨hsp, hsv, rfl, ⟨.name _, by intro e h; cases h; exact .const _ _ _ _ (by decide)⟩, by intro it h; cases h⟩
+  have hB : WFDcl dB := ⟨hsp, hsv, rfl, ⟨.name _, by intro e h; cases h; exact .expr _ (.id _ _)⟩, by intro it h; cases h⟩
+  have hI : WFDcl dI := ⟨hsp, hsv, rfl, ⟨.name _, by intro e h; cases h; exact .expr _ (.const _ _ _ _ (by decide))⟩, by intro it h; cases h⟩
   have hw : WFSL (fun _ => false) l := by
     refine .consD _ _ hA (fun _ _ => rfl) (.cons _ _ (.block _ (.consD _ _ hB (fun _ _ => rfl) (.cons _ _ ?_ .nil))) .nil)
     refine .forD _ _ _ _ hI (fun _ _ => rfl) ?_ ?_ (.expr _ (.assign _ _ _ _ _ (by omega) (by decide) (.id _ _) (.id _ _)))
